@@ -6,7 +6,7 @@
    create_diagnostic.  [storer_of ign k d] is the real cache (tables [d]) read
    without faults; by C08/C03 its reads are functions of the abstract history. *)
 From Coq Require Import ZArith.
-From VL Require Import Lib.Bytes Lib.Reg Model.SemverUtil Model.CacheDb Model.Checker Spec.Verdict Spec.AbsCache
+From VL Require Import Lib.Bytes Lib.Reg Lib.SemVer Model.SemverUtil Model.GoMatcher Proofs.GoOrderProofs Model.CacheDb Model.Checker Spec.Verdict Spec.AbsCache
   Proofs.CacheProofs Proofs.VerdictProofs Proofs.CheckerPins.
 
 (* the diagnostic is the decision table of Spec/Verdict.v applied to the facts, for every
@@ -73,6 +73,29 @@ Example C01_ex_all_cells :
   diagnostic (storer_of true k d) npm_matcher [98;101;116;97] = Some (SevError, s_version_ ++ [98;101;116;97] ++ s_not_found).
 Proof. vm_compute. repeat split. Qed.
 
+(* go.mod: compare_go_versions sets the timestamp of a pseudo-version vX.Y.Z-<timestamp>-<commit> aside and
+   decides with its own table; against a release this is SemVer precedence of the whole version text
+   (whenever that text is a SemVer version), so "the version S is anchored at is below L" is the ordering the
+   Go toolchain uses: the pseudo-version is a prerelease of its base (repair fa880b6). *)
+Theorem C01_go_pseudo_version_order :
+  forall cur latest cv ts lv f,
+  GoMatcher.parse_go_version cur = Some (cv, Some ts) -> build cv = [] ->
+  GoMatcher.parse_go_version latest = Some (lv, None) -> go_release lv ->
+  SemVer.parse (GoMatcher.normalize_go_version cur) = Some f ->
+  GoMatcher.compare_to_latest cur latest = GoMatcher.of_cmp (vcmp f lv).
+Proof. exact go_pseudo_vs_release. Qed.
+
+(* v1.0.0-20210101000000-abcdefabcdef against v1.0.0 meets the hypotheses, and is outdated *)
+Example C01_go_pseudo_ex :
+  let cur := [118;49;46;48;46;48;45;50;48;50;49;48;49;48;49;48;48;48;48;48;48;45;97;98;99;100;101;102;97;98;99;100;101;102] in
+  let latest := [118;49;46;48;46;48] in
+  (exists cv ts lv f, GoMatcher.parse_go_version cur = Some (cv, Some ts) /\ build cv = [] /\
+     GoMatcher.parse_go_version latest = Some (lv, None) /\ go_release lv /\
+     SemVer.parse (GoMatcher.normalize_go_version cur) = Some f) /\
+  GoMatcher.compare_to_latest cur latest = Outdated.
+Proof. vm_compute. split; [|reflexivity]. do 4 eexists. repeat split. Qed.
+
 Print Assumptions C01_table.
 Print Assumptions C01_invalid_beats_not_found.
 Print Assumptions C01_failed_read_silent.
+Print Assumptions C01_go_pseudo_version_order.
